@@ -7,7 +7,7 @@ patch=$(readlink -f "$1"); shift
 checks=${@:-$(/venv/bin/python -c "import json;print(' '.join(c['property_id'] for c in json.load(open('MANIFEST.json'))['checks']))")}
 d=$(mktemp -d -p /dev/shm gwfrefac-XXXXXX)
 git -C /repo archive HEAD | tar -x -C $d
-(cd $d && (git apply $patch 2>/dev/null || patch -s -p1 --fuzz=3 < $patch)) || { echo "PATCH DOES NOT APPLY"; rm -rf $d; exit 3; }
+(cd $d && git init -q . && git apply $patch 2>/dev/null) || { echo "PATCH DOES NOT APPLY (strict)"; rm -rf $d; exit 3; }
 rc=0
 for p in $checks; do
   out=$(VERIF_GWF_SRC=$d/src ./check $p --no-evidence 2>&1); r=$?
